@@ -652,7 +652,8 @@ func (m *Mint) RequestMeltQuote(meltQuoteRequest nut05.PostMeltQuoteBolt11Reques
 				}
 				isMpp = true
 				amountMsat = mpp.AmountMsat
-				quoteAmount = amountMsat / 1000
+				// the partial amount is paid in full: a fraction of a sat is charged as a whole one
+				quoteAmount = (amountMsat + 999) / 1000
 				m.logInfof("got melt quote request to pay partial amount '%v' of invoice with amount '%v'",
 					quoteAmount, invoiceSatAmount)
 			} else {
